@@ -19,7 +19,10 @@ MANIFEST = dict(
          "program (hence every public function), every prior database content, every statement position k and every fault kind (IntegrityError, "
          "InterfaceError, OperationalError, process death at k, death just before / after commit) the file afterwards is the pre-state or the "
          "complete post-state of the un-faulted call, a call that reports an error wrote nothing, and a retry from the restored state repeats the "
-         "un-faulted call. Two exceptions are proved as refuted items: an IntegrityError raised inside the `try/except IntegrityError: pass` of "
+         "un-faulted call; NO ORPHANS: the invariant 'every property row has its owner and type, every isotherm its material / adsorbate / type, every "
+         "isotherm property and data row its isotherm, keys unique' holds for a fresh file and is preserved by every statement program run under "
+         "with_connection whatever fails or dies wherever - hence after ANY history of faulted calls (induction over program trees and histories); it is "
+         "decided inside Coq for the prepared contents of the run. Two exceptions are proved as refuted items: an IntegrityError raised inside the `try/except IntegrityError: pass` of "
          "adsorbate/material overwrite is swallowed (old AND new properties are committed), and the in-memory registries are not rolled back, so "
          "the retry of an isotherm upload whose auto-insert was rolled back is refused. The model's transaction semantics are tied to the code on "
          "every run by injecting the same faults into the implementation (module proxy, forked child with os._exit) and comparing with the model "
@@ -207,6 +210,7 @@ def explore(rep, tier, seed):
         model = vlib.run_coq_cases('c09m', header, 'fun x : list Z => x', terms, per_file=max(20, len(terms) // 16 + 1), nested=True, timeout=1500)
     except RuntimeError as e:
         rep.broken_obligation('correspondence:DbAtomic-evaluation', str(e)[-1200:])
+    c08.check_wf(rep, header, ['db_%s' % pname for pname in P])
     n_dis = 0
     hist = {}
     nontrivial = set()
